@@ -88,6 +88,7 @@ type Type struct {
 	N      int     `json:"n"`
 	Min    Num     `json:"min"`
 	Max    Num     `json:"max"`
+	Form   string  `json:"form"` // vec: the spelling of the tag: minmax (default) | maxmin | max (TLSCodec.tla VecForms)
 	Elem   *Type   `json:"elem"`
 	Fields []Field `json:"fields"`
 }
@@ -217,6 +218,15 @@ func (t *Type) TagString() string {
 		}
 		return "maxval:" + t.Maxval.Dec()
 	case "vec":
+		switch t.Form {
+		case "max": // minlen omitted: the minimum is 0
+			if len(t.Min) != 0 {
+				panic("tlsmodel: tag form max with a minimum: " + t.Min.Dec())
+			}
+			return "maxlen:" + t.Max.Dec()
+		case "maxmin":
+			return "maxlen:" + t.Max.Dec() + ",minlen:" + t.Min.Dec()
+		}
 		return "minlen:" + t.Min.Dec() + ",maxlen:" + t.Max.Dec()
 	}
 	return ""
@@ -232,6 +242,9 @@ func (t *Type) String() string {
 	case "enum":
 		return "enum(" + t.TagString() + ")"
 	case "vec":
+		if t.Form != "" && t.Form != "minmax" {
+			return fmt.Sprintf("%s<%s..%s>/%s", t.Elem, t.Min.Dec(), t.Max.Dec(), t.Form)
+		}
 		return fmt.Sprintf("%s<%s..%s>", t.Elem, t.Min.Dec(), t.Max.Dec())
 	case "struct":
 		parts := make([]string, len(t.Fields))
